@@ -46,6 +46,7 @@ def do_op(root, op, p):
       return 'ok', None, None
     if name in ('replace', 'replace_shared'):
       v = op['val'] if op['val'] > 0 else fdl.Config(H.g4)
+      do_op.last_value = v
       sel.replace(v, deepcopy=(name == 'replace'))
       return 'ok', None, None
     raise ValueError(name)
@@ -53,7 +54,13 @@ def do_op(root, op, p):
     return 'raise:' + type(e).__name__, None, None
 
 
-def check_line(rec):
+def _wrap(a, /, *rest):
+  return ('wrap', a, rest)
+
+
+def check_line(rec, wrapped=False):
+  """wrapped: the same graph referenced from the positional-only cell, from a list in a variadic cell and
+  from a variadic cell of a Buildable that matches no selection; the operation must act on it as specified."""
   hp, op = rec['heap'], rec['op']
   root, _ = H.realize(hp)
   p = H.Projector()
@@ -61,13 +68,37 @@ def check_line(rec):
   if p.heap != hp:
     raise common.MachineryError(f'round trip: {hp} -> {p.heap}')
   pre_objs = list(p.keep)
-  out, ret, n = do_op(root, op, p)
+  outer = fdl.Config(_wrap, root, [root], root) if wrapped else None
+  out, ret, n = do_op(outer if wrapped else root, op, p)
   base = {'op': op['name'], 'sub': op['sub'], 'bt': op['bt'], 'fn': op['fn']}
+  if wrapped:
+    base['wrapped_positional'] = True
   def feat(clause, **kw):
     return dict(base, clause=clause, **kw)
   mism = []
-  if out.split(':')[0] != rec['out']:
+  if wrapped and rec['out'] == 'raise':
+    # the specification refuses to replace the root as such; under the wrapper the same node is an ordinary
+    # matching node and every positional reference to it must be substituted
+    if out != 'ok':
+      return [(feat('outcome', expected='ok', observed=out), f'{op} under a wrapper: {out}')]
+  elif out.split(':')[0] != rec['out']:
     return [(feat('outcome', expected=rec['out'], observed=out), f'{op}: {out}, spec {rec["out"]}')]
+  if wrapped:
+    refs = {'[0]': outer[0], '[1][0]': outer[1][0], '[2]': outer[2]}
+    root_replaced = rec['out'] == 'raise' or (
+        op['name'] in ('replace', 'replace_shared') and rec['keep'] and not rec['keep'][0])
+    if root_replaced:
+      v = do_op.last_value
+      for label, got in refs.items():
+        same = (got is v) if (op['name'] == 'replace_shared' or isinstance(v, int)) else (
+            got is not v and isinstance(got, fdl.Config) and got == v)
+        if not same:
+          return [(feat('positional-reference-not-replaced'),
+                   f'{op}: the reference at {label} of a positional cell still holds {got!r}')]
+      return []
+    for label, got in refs.items():
+      if got is not root:
+        return [(feat('positional-reference-lost'), f'{op}: the reference at {label} is another object')]
   q = H.Projector()
   q.val(root)
   if q.heap != rec['post']:
@@ -105,6 +136,16 @@ def work(lines):
         for f, msg in check_line(rec):
           mismatches.append((dict(f, callable_variant=variant),
                              {'heap': rec['heap'], 'op': rec['op'], 'message': msg[:700]}))
+        # (a refusal may concern the root as such; under the wrapper the graph is no root: only accepted cases transfer)
+        root_match_refused = (rec['out'] == 'raise' and rec['op']['name'] in ('replace', 'replace_shared')
+                              and rec['heap'][0]['k'] in ('config', 'partial'))
+        if root_match_refused:
+          r0, _ = H.realize(rec['heap'])
+          root_match_refused = any(n is r0 for n in selection(r0, rec['op']))
+        if variant == 0 and (rec['out'] == 'ok' or root_match_refused):
+          for f, msg in check_line(rec, wrapped=True):
+            mismatches.append((dict(f, callable_variant=variant),
+                               {'heap': rec['heap'], 'op': rec['op'], 'message': msg[:700]}))
       finally:
         H.FN_VARIANT = 0
     if rec['post'] != rec['heap'] or rec['ret']:
